@@ -19,12 +19,17 @@ import priv
 TABLE = [None, "", " \t", "\u3000\u2028", "textDocument/hover", "textDocument/completion",
          "textDocument/didSave", "textDocument/semanticTokens/full", "initialized", "custom/x",
          "cmd.a", "cmd.b", "textDocument/hover ", "textDocument/signatureHelp", "textDocument/codeAction",
-         "textDocument/semanticTokens/range"]
+         "textDocument/semanticTokens/range", "textDocument/willSave", "workspace/didChangeConfiguration",
+         "workspace/didChangeWatchedFiles"]
+# options-type classes of the methods above: an options class (4 5 6 13 14), a Union (7 15), declared
+# "no options" (8: lookup answers None, nothing is checked), NO <Method>Options class at all (16 17 18:
+# the lookup raises MethodTypeNotRegisteredError), not an LSP method (9 10 11 12)
+NO_OPTIONS_CLASS = (16, 17, 18)
 IDX = {n: i for i, n in enumerate(TABLE)}
 N_NONE, N_EMPTY, N_WS, N_UWS = 0, 1, 2, 3
 PROBE_F = list(range(len(TABLE)))
 PROBE_C = [0, 1, 2, 4, 10, 11]
-assert len(TABLE) == 16
+assert len(TABLE) == 19
 # option kinds
 O_NONE, O_VALID, O_WRONG, O_STRUCT, O_FALSY, O_TYPEERR, O_BADFIELD, O_BADELEM = 0, 1, 2, 3, 4, 5, 6, 7
 # methods whose options class has a list-typed field (a right-class object can carry wrong-typed content)
@@ -49,7 +54,9 @@ def oracle(name_idx, okind):
         return (truthy, False, CK_RAISES)           # never looked at: the name check comes first
     if name_idx == 8:                                # 'initialized': no options type declared
         return (truthy, True, CK_NOTYPE)
-    if name_idx in (9, 10, 11, 12):                  # not an LSP method: MethodTypeNotRegisteredError
+    if name_idx in (9, 10, 11, 12) or name_idx in NO_OPTIONS_CLASS:
+        # not an LSP method / an LSP method without options class: options given for it are refused
+        # (MethodTypeNotRegisteredError) - every time, whatever was attempted before
         return (truthy, False, CK_UNKNOWN)
     if okind in (O_BADFIELD, O_BADELEM) and name_idx not in BADFIELD_NAMES:
         okind = O_WRONG                              # no list field to spoil: an unrelated object instead
@@ -414,6 +421,14 @@ def _instance(cls):
     return cls(**kw)
 
 
+def _builtins_idx():
+    impl = _Impl()
+    try:
+        return impl.builtins()
+    finally:
+        impl.close()
+
+
 def struct_pairs():
     """every (method with a declared options type T, options class U) pair, with the declared-type
     answer (nominal: isinstance) and the answer a structural test gives (every field of T is a field
@@ -648,6 +663,28 @@ def inter_reuse():
     return out
 
 
+def inter_repeat():
+    """REPETITION: the same attempt made three times in a row on one server, then twice on a second
+    server of the process, then the name offered without options on both - for one method of every
+    options-type class and every kind of options object.  A refusal must repeat (the verdict is a
+    function of (method, options) only) and must leave the name free."""
+    out = []
+    for m in (5, 13, 7, 8, 16, 17, 18, 9, 12, 1):
+        for ok in (O_VALID, O_WRONG, O_BADFIELD, O_STRUCT, O_FALSY):
+            ops, nd, nf = [], [0, 0], [0, 0]
+            def attempt(k, okind):
+                ops.extend([[k, "d", 0, nf[k] % 3], [k, "m", 0, m, okind], [k, "a", nd[k], nf[k]]])
+                nd[k] += 1; nf[k] += 1
+            for k, times in ((0, 3), (1, 2)):
+                for _ in range(times):
+                    attempt(k, ok)
+            attempt(0, O_NONE)
+            attempt(1, O_NONE)
+            attempt(1, ok)
+            out.append({"k": "inter", "n": 2, "ops": ops})
+    return out
+
+
 def inter_random(rng):
     n = rng.choice([1, 1, 2, 3])
     ops, nf, nd, regd = [], [0] * n, [[] for _ in range(n)], [set() for _ in range(n)]
@@ -659,7 +696,7 @@ def inter_random(rng):
         elif r < 0.6 or not nd[k]:
             kind = rng.choice([0, 0, 0, 1, 1, 2])
             if kind == 0:
-                ops.append([k, "m", 0, rng.choice([5, 5, 4, 13, 14, 7, 15, 6, 8, 9, 1, 0, 2]),
+                ops.append([k, "m", 0, rng.choice([5, 5, 4, 13, 14, 7, 15, 6, 8, 9, 16, 16, 17, 18, 1, 0, 2]),
                             rng.choice([O_NONE, O_VALID, O_VALID, O_WRONG, O_BADFIELD, O_BADFIELD, O_BADELEM,
                                         O_STRUCT, O_FALSY, O_TYPEERR])])
             elif kind == 1:
@@ -882,6 +919,7 @@ class C19(core.Property):
         cases.extend(inter_priming())
         cases.extend(inter_exhaustive())
         cases.extend(inter_reuse())
+        cases.extend(inter_repeat())
         for _ in range(chk.n(1200, 15000)):
             cases.append(inter_random(rng))
         # the registration-shape product (C14 half), also run here
@@ -893,7 +931,7 @@ class C19(core.Property):
             seq = []
             for _ in range(n):
                 kind = 0 if rng.random() < 0.65 else 1
-                ni = rng.choice([4, 4, 5, 5, 6, 7, 8, 9, 12, 10, 13, 14, 15, 0, 1, 2, 3]) if kind == 0 else \
+                ni = rng.choice([4, 4, 5, 5, 6, 7, 8, 9, 12, 10, 13, 14, 15, 16, 16, 17, 18, 0, 1, 2, 3]) if kind == 0 else \
                     rng.choice([10, 10, 11, 11, 4, 0, 1, 2, 3])
                 ok = rng.choice([O_NONE, O_NONE, O_VALID, O_VALID, O_WRONG, O_BADFIELD, O_BADFIELD, O_BADELEM, O_STRUCT, O_FALSY,
                                  O_TYPEERR]) \
@@ -904,7 +942,11 @@ class C19(core.Property):
         for lo in range(0, 0x110000, 0x4000):
             cases.append({"k": "isspaces", "lo": lo, "hi": lo + 0x4000})
         # every (method, options class) pair: the extent of finding 27
-        cases.extend(struct_pairs())
+        # (computed in a forked child: the parent process never calls into pygls' type lookup, so the
+        # children that run the cases - and every replay - start from an untouched process)
+        import multiprocessing as mp
+        with mp.get_context("fork").Pool(1) as pool:
+            cases.extend(pool.apply(struct_pairs))
         ws = [0x20, 0x09, 0x0A, 0x85, 0xA0, 0x3000, 0x61, 0x200B, 0x1F]
         for n in range(0, 4):
             for t in itertools.product(ws, repeat=n):
@@ -943,11 +985,9 @@ class C19(core.Property):
 
     def header(self):
         if self._hdr is None:
-            impl = _Impl()
-            try:
-                b = impl.builtins()
-            finally:
-                impl.close()
+            import multiprocessing as mp
+            with mp.get_context("fork").Pool(1) as pool:      # the parent never instantiates pygls objects
+                b = pool.apply(_builtins_idx)
             lst = lambda l: f"{len(l)} " + " ".join(map(str, l)) if l else "0"
             self._hdr = (f"{len(TABLE)} " + " ".join(enc_name(n) for n in TABLE) + " " + lst(PROBE_F) + " "
                          + lst(PROBE_C) + " " + lst(b))
